@@ -192,13 +192,10 @@ class VolumeImg(VolumeGrid):
         else:
             transform_affine = np.dot(np.linalg.inv(self.affine), affine)
         A, b = to_matrix_vector(transform_affine)
-        A_inv = np.linalg.inv(A)
         # If A is diagonal, ndimage.affine_transform is clever-enough
         # to use a better algorithm
         if np.all(np.diag(np.diag(A)) == A):
             A = np.diag(A)
-        else:
-            b = np.dot(A, b)
         # For images with dimensions larger than 3D:
         data_shape = list(data.shape)
         if len(data_shape) > 3:
@@ -208,7 +205,7 @@ class VolumeImg(VolumeGrid):
             data = np.reshape(data, data_shape[:3] + [-1])
             data = np.rollaxis(data, 3)
             resampled_data = [ ndimage.affine_transform(slice, A,
-                                                offset=np.dot(A_inv, b),
+                                                offset=b,
                                                 output_shape=shape,
                                                 order=interpolation_order)
                                 for slice in data]
@@ -219,7 +216,7 @@ class VolumeImg(VolumeGrid):
                                             list(data_shape[3:]))
         else:
             resampled_data = ndimage.affine_transform(data, A,
-                                                offset=np.dot(A_inv, b),
+                                                offset=b,
                                                 output_shape=shape,
                                                 order=interpolation_order)
         return self.__class__(resampled_data, affine,
